@@ -102,4 +102,6 @@ func TestC06(t *testing.T) {
 		}
 		runHistory("C06", id, c, ops)
 	})
+	// suspicionTimeout (the minimum of the suspicion timer) against its integer model
+	forCases(8, 63, "sc", func(i int, r *rng, id string) { scaleLeg("C06", "susp", r, id, 0) })
 }
